@@ -74,7 +74,16 @@ def describe(f):
 
 
 def run(ctx):
-    ok_build, _ = vlib.cargo_build(ctx, "h14")
+    # the C14 binary alone, without the package's `run` feature: the Cairo compiler and the runner (needed
+    # only by h14run, the C02 / C04 / C17 legs) are neither rebuilt nor linked
+    import time
+    t = time.time()
+    rc, bout = vlib.run(["cargo", "build", "--offline", "-p", "h14", "--bin", "h14", "--no-default-features"],
+                        cwd=vlib.HARNESS, timeout=3000)
+    ctx.log("cargo build -p h14 --bin h14 --no-default-features: rc=%d (%.0fs)" % (rc, time.time() - t))
+    ok_build = rc == 0
+    if not ok_build:
+        ctx.log("\n".join(bout.splitlines()[-40:]))
     ok_make, _ = vlib.coq_make(ctx, "C14")
     cone = vlib.cone_files("C14")
     pr = vlib.check_properties_file(ctx, os.path.join(vlib.COQ, "Props/C14.v"), cone) if ok_make else None
@@ -140,7 +149,7 @@ def run(ctx):
                 "contract class in /repo: the valid vector; boundary values (old+-1, 0, 2^32, 2^63, 2^64-1, 2^64, 2^128-1, 2^128, "
                 "2^251, P-1, P, len, len+1) at every / sampled positions of the packed vector and of the decompressed "
                 "length-prefixed vector (re-compressed), truncation / deletion / insertion at those positions; random vectors; "
-                "(program level) base + single-point mutants by 56 operators (statement delete/swap/dup, arg/result/return "
+                "(program level) base + single-point mutants by 57 operators (statement delete/swap/dup, arg/result/return "
                 "variable edits, branch retarget incl. self/out of range/usize::MAX, branch drop/dup/swap, libfunc swap, entry "
                 "point moves, signature/param edits, function delete/dup/id swap, type/libfunc declaration "
                 "delete/dup/reorder/id swap/generic id/declared info, generic-arg value edits incl. sign and magnitude up to "
